@@ -31,6 +31,8 @@ type Stream struct {
 	Enumerate func(emit func(line string))
 	// Compare optionally replaces string equality (e.g. set membership).
 	Compare func(goOut, modelOut string) bool
+	// Extra optionally reports stream-specific statistics (evidence).
+	Extra func() map[string]string
 }
 
 var streams = map[string]*Stream{}
@@ -225,6 +227,9 @@ func runStream(s *Stream, seed uint64, n int, thorough bool, driver string, corp
 	}
 	cmd.Wait()
 	st.Distinct = len(seen)
+	if s.Extra != nil {
+		st.Extra = s.Extra()
+	}
 	st.WallS = time.Since(t0).Seconds()
 	return st, nil
 }
@@ -297,6 +302,8 @@ func main() {
 		}
 	case "oracle":
 		runOracleCmd(os.Args[2:])
+	case "costprobe":
+		runCostProbe()
 	default:
 		fmt.Fprintln(os.Stderr, "unknown command")
 		os.Exit(2)
